@@ -20,7 +20,9 @@ EXHAUSTIVE = True
 RULE = ('all (format table, record kind, field) x value alphabet (reals: sign x decimal exponent x 6 mantissa '
         'patterns + signed zero, f-fields also every magnitude to 10^(w+1); integers: 0 and min/max of every digit '
         'count 1..w+1 both signs; names: all strings over {a,Z,7,blank} to length min(w,5)+1 and lengths 0,1,w-1,w,w+1) '
-        'with full-width sentinels elsewhere, and None at the field / at each other position; a case is non-trivial '
+        'with full-width sentinels elsewhere, and None at the field / at each other position; plus the dictionary route '
+        '(write_value_line -> read_value_line into a fresh dictionary) for every record kind with unique field names, '
+        'each field zero or absent; a case is non-trivial '
         'when the value under test is not None; distinct = distinct (table, record, field, value, None-position)')
 ASSUMPTIONS = ['records are written and parsed through fixed_format_file.write_values_to_string / parse_string of the '
                'parser classes the library itself instantiates (t2data_parser, t2_extra_precision_data_parser, '
@@ -118,7 +120,63 @@ def units(tier):
     for tname, parser in tables().items():
         for rec_kind in parser.specification:
             us.append((tname, rec_kind))
+    us.append(('dict-path',))
     return us
+
+
+def dict_records(parser):
+    """Record kinds usable through write_value_line / read_value_line: unique, non-empty names."""
+    out = []
+    for rec_kind, (names, fmts) in parser.specification.items():
+        named = [n for n, f in zip(names, fmts) if f[-1] != 'x']
+        if named and len(set(named)) == len(named) and all(named):
+            out.append(rec_kind)
+    return out
+
+
+def eval_dict_case(parser, tname, rec_kind, i, kind):
+    """One record written from a dictionary and read back into a fresh dictionary, with field i
+    zero ('zero') or absent ('absent'); all other fields hold their sentinels."""
+    import io
+    names, fmts = parser.specification[rec_kind]
+    var = {}
+    for j, (n, f) in enumerate(zip(names, fmts)):
+        typ, w, prec, left = split_fmt(f)
+        if typ != 'x':
+            var[n] = sentinel(typ, w, j)
+    typ, w, prec, left = split_fmt(fmts[i])
+    if kind == 'zero':
+        var[names[i]] = 0 if typ == 'd' else 0.0
+    else:
+        del var[names[i]]
+    base = 'C02|%s|%s|%d:%s|%s|dict-path' % (tname, rec_kind, i, names[i], fmts[i])
+    parser.file = io.StringIO()
+    try:
+        parser.write_value_line(var, rec_kind)
+        parser.file.seek(0)
+        back = {}
+        parser.read_value_line(back, rec_kind)
+    except core.CaseTimeout:
+        raise
+    except Exception as e:
+        return [(base + '|raises', 'write_value_line/read_value_line raised %r for %r' % (e, var))]
+    out = []
+    for j, (n, f) in enumerate(zip(names, fmts)):
+        tj = f[-1]
+        if tj == 'x':
+            continue
+        if n in var:
+            want = expected_sentinel(tj, f, var[n]) if tj in 'efg' else var[n]
+            if n not in back:
+                out.append((base + '|%s-value-dropped' % ('zero' if (j == i and kind == 'zero') else 'written'),
+                            'field %r written as %r is missing from the dictionary read back' % (n, var[n])))
+            elif back[n] != want:
+                out.append((base + '|value-differs', 'field %r written as %r reads back %r' % (n, var[n], back[n])))
+        else:
+            got = back.get(n)
+            if not (got is None or (isinstance(got, str) and got.strip() == '')):
+                out.append((base + '|absent-not-absent', 'absent field %r reads back %r' % (n, got)))
+    return out
 
 
 def expected_sentinel(typ, f, val):
@@ -246,6 +304,26 @@ def vclass(typ, val):
 
 
 def run_unit(unit, tier, rec):
+    if unit[0] == 'dict-path':
+        # the dictionary route (write_value_line / read_value_line) used for PARAM, MULTI, LINEQ, SOLVR,
+        # TIMES.1, ROCKS.1.1, mesh-maker, incon timing and MULgraph header records
+        n = 0
+        for tname, parser in tables().items():
+            for rec_kind in dict_records(parser):
+                names, fmts = parser.specification[rec_kind]
+                for i, f in enumerate(fmts):
+                    typ = f[-1]
+                    if typ == 'x':
+                        continue
+                    for kind in (('zero', 'absent') if typ != 's' else ('absent',)):
+                        viol = eval_dict_case(parser, tname, rec_kind, i, kind)
+                        rec.case((tname, rec_kind, i, 'dict', kind), nontrivial=True, outcome='dict-ok' if not viol else 'dict-bad')
+                        n += 1
+                        for sig, what in viol:
+                            rec.violation(sig, what, {'table': tname, 'record': rec_kind, 'field': i, 'dict': kind})
+        rec.count('dict_path_cases', n)
+        rec.sample({'dict_path': 'records written from a dictionary with one field zero / absent', 'cases': n})
+        return
     tname, rec_kind = unit
     parser = tables()[tname]
     names, fmts = parser.specification[rec_kind]
@@ -296,6 +374,8 @@ def run_unit(unit, tier, rec):
 
 def replay(case):
     parser = tables()[case['table']]
+    if 'dict' in case:
+        return eval_dict_case(parser, case['table'], case['record'], case['field'], case['dict'])
     names, fmts = parser.specification[case['record']]
     cols, width = ref_columns(fmts)
     v = case['value']
